@@ -53,8 +53,9 @@ def run_check(prop, tier, seed):
               f'obligations={cov.get("obligations")} wall_s={ev["wall_s"]}')
         return 0
 
-    # ---- 0. hygiene ----
-    bad = C.hygiene()
+    # ---- 0. hygiene (of everything this property's theorems and model depend on) ----
+    targets = list(getattr(mod, 'COQ_TARGETS', [f'theories/Properties/{prop}.vo']))
+    bad = C.hygiene(targets)
     if bad:
         violations.append(('hygiene', {'property': prop, 'what': 'forbidden construct in the Coq development',
                                        'items': bad}, False))
